@@ -11,6 +11,7 @@
 #include <map>
 #include <memory>
 #include <sstream>
+#include <thread>
 
 namespace engine
 {
@@ -54,6 +55,7 @@ class Uci
     bool staticeval_command(std::istringstream& istream);
 
     std::shared_ptr<Search> search;
+    std::thread search_thread;
     Position position;
     PositionScorer scorer;
     tt::TTable ttable;
